@@ -67,6 +67,7 @@ class Scope:
         return out.items()
 
 
+STRICT_TOKENS_DISTINCT = False    # True: different tokens denote different values (the assumption used before this was made explicit)
 OPAQUE_HEADS = ("param", "elem", "byte", "id", "rt", "lane", "arg", "key", "char")
 
 
@@ -327,6 +328,8 @@ class SymEval:
                 if (opaque(a) and isinstance(b, (int, str)) and not isinstance(b, bool)) or (opaque(b) and isinstance(a, (int, str)) and not isinstance(a, bool)) \
                         or (opaque(a) and isinstance(b, tuple) and b and b[0] == "str") or (opaque(b) and isinstance(a, tuple) and a and a[0] == "str"):
                     return ("cmp", op, a, b)
+                if opaque(a) and opaque(b) and a != b and not STRICT_TOKENS_DISTINCT:
+                    return ("cmp", op, a, b)        # two different unknown values may still be equal at run time
                 if self.concrete(a) and self.concrete(b):
                     return (a == b) == (op == "==")
                 return ("cmp", op, a, b)
